@@ -48,6 +48,8 @@ def run(tier, seed):
     plan = [(1, "small", 0, 1), (1, "lists", 0, 1)] if quick else [(1, "full", 0, 1), (2, "small", seed % 7, 7), (2, "lists", seed % 5, 5)]
     if quick:
         plan.append((2, "small", seed % 60, 60))
+    # unary operators under and over binary ones (precedence of not / minus)
+    plan.append((3, "small", seed % 3, 3) if quick else (3, "full", seed % 2, 2))
     cases, states, trans = [], 0, 0
     for depth, pool, sl, mod in plan:
         cs, res = exprs.tlc_exprs(wd, depth, pool, sl, mod)
@@ -65,6 +67,10 @@ def run(tier, seed):
     # keyword forms of the operators (and or not has hasnt mod) on a part of the cases
     alt = [c for i, c in enumerate(uniq) if i % 5 == 0 and c["r"]["t"] not in ("error", "unspec")]
     results += exprs.run_cases(alt, wd, "debug", name="c07alt", alt=True)
+    # operator precedence: the same trees written with the parentheses left out wherever precedence gives the grouping
+    # anyway (only the pairs of operators on which Ink's table and the usual one agree, see exprs.render)
+    bare = [c for c in uniq if c["r"]["t"] not in ("error", "unspec") and exprs.render(c["e"], "bare") != exprs.render(c["e"])]
+    results += exprs.run_cases(bare, wd, "debug", name="c07bare", profile="bare")
     nviol, seen_known, per_fp = report("C07", [(c, o) for c, o in results if o["kind"] != "panic" or True])
     kinds = {}
     for c, o in results:
